@@ -70,6 +70,7 @@ func genCase(t *rapid.T) Case {
 	n := rapid.IntRange(1, 40).Draw(t, "nops")
 	live := make([][]string, c.Clients)
 	links := make([][]string, c.Clients)
+	linkOps := make([][]Op, c.Clients)
 	genTopic := func(cl int, unsub bool) Topic {
 		f := rapid.SampledFrom(goodFilters).Draw(t, "f")
 		if c.MQTT && rapid.IntRange(0, 2).Draw(t, "hashf") == 0 {
@@ -144,13 +145,19 @@ func genCase(t *rapid.T) Case {
 				op.Ch = rapid.SampledFrom(append(append([]string{}, badChannels...), "a/+/")).Draw(t, "lch")
 			}
 			op.Auto = rapid.Bool().Draw(t, "auto")
+			if prev := linkOps[op.C]; len(prev) > 0 && rapid.IntRange(0, 2).Draw(t, "relink") == 0 {
+				// the same link request again (clients re-issue their links), possibly with the other subscribe flag
+				p := rapid.SampledFrom(prev).Draw(t, "prevlink")
+				op.Link, op.Key, op.Ch = p.Link, p.Key, p.Ch
+			}
+			linkOps[op.C] = append(linkOps[op.C], op)
 			links[op.C] = append(links[op.C], op.Link)
 			if op.Auto && canRead(op.Key) {
 				live[op.C] = append(live[op.C], op.Ch)
 			}
 		default:
 			op.K = "reconnect"
-			live[op.C], links[op.C] = nil, nil
+			live[op.C], links[op.C], linkOps[op.C] = nil, nil, nil
 		}
 		c.Ops = append(c.Ops, op)
 	}
